@@ -43,7 +43,10 @@ TRUSTED = [
 ]
 ASSUMES = [
     "every gate uses at least one qubit (a list of GLOBALPHASE gates only raises ValueError in the shipped code)",
-    "hardware constraint = default qubit_constraint",
+    "hardware constraint = qubit_constraint, alone or in a constraint_functions list (any position) together with functions it "
+    "implies (the list is a conjunction; exact tie); lists with a genuinely stricter function are checked by the oracle only "
+    "(every listed function respected inside a cycle); public attributes re-assigned after construction / between calls are "
+    "compared with the history-free model at the values in force at the call",
 ]
 
 
@@ -73,6 +76,9 @@ def oracle_cycles(inp, cycles):
         used = [q for i in c for q in qs[i]]
         if len(used) != len(set(used)):
             return ("two gates in one cycle share a qubit", dict(cycle=c))
+    cv = S.cons_violation(inp, cycles)
+    if cv:
+        return ("two gates in one cycle are forbidden to run in parallel by a listed hardware constraint", cv)
     pos = {}
     for ci, c in enumerate(cycles):
         for i in c:
@@ -389,7 +395,7 @@ def run_history(hist):
     import qutip_qip.compiler.scheduler as SM
     from qutip_qip.compiler import Scheduler
     from qutip_qip.circuit import QubitCircuit
-    sch = Scheduler(hist["method"], allow_permutation=hist["perm"])
+    sch = S.mk_scheduler(hist)        # hist["cons"] / hist["ctor"] as in c11.mk_scheduler
     out = []
     old = SM.shuffle
     try:
@@ -405,6 +411,10 @@ def run_history(hist):
 
             SM.shuffle = fake_shuffle
             try:
+                if hist.get("mutate"):
+                    # the public attributes are (re-)assigned before every call; each step carries its own values and
+                    # is compared with the history-free model at those values
+                    S.set_attributes(sch, inp)
                 if inp.get("as") == "circuit":
                     N = max([q for s in inp["instrs"] for q in S.spec_qubits(s)] + [0]) + 1
                     obj = QubitCircuit(N)
@@ -482,6 +492,8 @@ def gen_history(rng):
     nsteps = rng.randint(2, 4)
     same_len = rng.random() < 0.5
     n0 = rng.randint(2, 5)
+    mutate = rng.random() < 0.4
+    cons = list(rng.choice(S.CONS_EQUIV)) if rng.random() < 0.3 else None
     steps = []
     for k in range(nsteps):
         n = n0 if same_len else rng.randint(1, 6)
@@ -501,11 +513,23 @@ def gen_history(rng):
         sprinkle_phase(rng, specs)
         step = dict(instrs=specs, method=method, perm=perm, random=rng.random() < 0.3, shuf_seed=rng.randrange(10 ** 6),
                     mode=rng.choice(["cycles", "indices"]), **{"as": rng.choice(["circuit", "gates"])})
+        if cons is not None:
+            step["cons"] = list(cons)
+        if mutate:
+            step["method"] = rng.choice(["ASAP", "ALAP"])
+            step["perm"] = (not (steps[-1]["perm"] if steps else perm)) if rng.random() < 0.6 else rng.random() < 0.5
+            if rng.random() < 0.4:
+                step["cons"] = list(rng.choice(S.CONS_EQUIV))
         if rng.random() < 0.15:
             step["mode"] = "indices"
             step["repeat"] = rng.randint(1, 3)
         steps.append(step)
-    return dict(mode="history", method=method, perm=perm, steps=steps)
+    h = dict(mode="history", method=method, perm=perm, steps=steps)
+    if cons is not None:
+        h["cons"] = list(cons)
+    if mutate:
+        h["mutate"] = True
+    return h
 
 
 def history_prepare(ctx, corpus_hist):
@@ -524,6 +548,8 @@ def history_compare(corr, hists, flat, models):
     for (h, k, step, res, perms), mod in zip(flat, models):
         corr.tally("history-step")
         corr.tally("history-step-%d" % k)
+        if h.get("mutate"):
+            corr.tally("history-step with attributes re-assigned between calls")
         corr.count(json.dumps(dict(hist=h, step=k), sort_keys=True), nontrivial=S.nontrivial(step))
         r = "rejected" if isinstance(res, str) else res
         bad = step_failure(step, res)
@@ -545,15 +571,15 @@ def correspond(ctx):
     rng = ctx.rng
     exact = [("corpus", i) for i in S.load_corpus("C05") if i.get("mode") not in ("rule", "history")]
     for _ in range(ctx.n(1200, 5000)):
-        exact.append(("random<=8", gen_gate_input(rng, 8)))
+        exact.append(("random<=8", S.with_variants(rng, gen_gate_input(rng, 8))))
     for _ in range(ctx.n(400, 1500)):
-        exact.append(("cnot-x-z", gen_gate_input(rng, 8, N=rng.choice([2, 3]), kinds=["CNOT", "CNOT", "X", "RX", "Z", "RZ", "SNOT"])))
+        exact.append(("cnot-x-z", S.with_variants(rng, gen_gate_input(rng, 8, N=rng.choice([2, 3]), kinds=["CNOT", "CNOT", "X", "RX", "Z", "RZ", "SNOT"]), 0.4, 0.3)))
     for _ in range(ctx.n(400, 1500)):
         exact.append(("same-name-heavy", gen_gate_input(rng, 7, N=rng.choice([3, 4]), kinds=["R", "R", "QASMU", "MS", "FREDKIN", "FREDKIN", "TOFFOLI", "CRX", "CNOT", "RX", "SWAP"])))
     for _ in range(ctx.n(500, 2500)):
-        exact.append(("role-forms", gen_role_input(rng, 7)))
+        exact.append(("role-forms", S.with_variants(rng, gen_role_input(rng, 7))))
     for _ in range(ctx.n(500, 2500)):
-        exact.append(("multi-parameter-alphabet", gen_multiparam(rng)))
+        exact.append(("multi-parameter-alphabet", S.with_variants(rng, gen_multiparam(rng))))
     for _ in range(ctx.n(60, 300)):
         inp = gen_gate_input(rng, 6)
         inp["mode"] = "indices"
@@ -580,6 +606,10 @@ def correspond(ctx):
         corr.tally(kind)
         corr.tally("n=%d" % len(inp["instrs"]))
         corr.tally(inp["method"] + ("+shuffle" if inp.get("random") or inp.get("repeat") else "") + ("" if inp["perm"] else "+noperm"))
+        if inp.get("cons") and len(inp["cons"]) > 1:
+            corr.tally("constraint list with >= 2 functions" + ("" if inp["cons"][0] == "qubit" else ", qubit_constraint not first"))
+        if inp.get("ctor"):
+            corr.tally("attributes re-assigned after construction")
         corr.count(S.key_of(inp), nontrivial=S.nontrivial(inp), sample=inp)
         r = "rejected" if isinstance(res, str) else res
         if r != mod:
@@ -589,6 +619,12 @@ def correspond(ctx):
     # oracle-only: longer circuits, exhaustive sweeps
     n_oracle = 0
     stream = [gen_gate_input(rng, 14) for _ in range(ctx.n(800, 4000))]
+    for inp in stream:
+        r_ = rng.random()
+        if r_ < 0.2:          # genuinely stricter constraint lists: oracle only (every listed function must be respected)
+            inp["cons"] = list(rng.choice(S.CONS_STRICT + S.CONS_EQUIV))
+        if rng.random() < 0.15:
+            inp["ctor"] = dict(method=rng.choice(["ASAP", "ALAP"]), perm=not inp["perm"])
     if ctx.thorough:
         stream += list(exhaustive(3, reduced_alphabet()[::2]))
         stream += [i for i in exhaustive(2, placed_gates(3)) if len(i["instrs"]) == 2 and i["method"] == "ALAP"][::3]
@@ -670,6 +706,12 @@ def search(ctx, broken):
                                     expected="a valid, unitary-preserving schedule for every call",
                                     what="reused Scheduler object: " + bad[0]))
                     break
+    for _ in range(1500):
+        if len(out) + len(c.oracle_failures) >= 2:
+            break
+        inp = S.with_variants(rng, gen_gate_input(rng, 8, N=rng.choice([2, 3]), kinds=["CNOT", "CNOT", "X", "RX", "Z", "RZ", "SNOT"]), 0.5, 0.4)
+        res, _ = S.run_real(inp)
+        check_real(c, inp, res)
     for _ in range(600):
         if len(out) + len(c.oracle_failures) >= 2:
             break
